@@ -268,3 +268,32 @@ func (s *stallCloud) GetClientPortMappings(clientID int64) ([]*models.PortMappin
 }
 
 var _ = io.EOF
+
+// faultCloud is a tunnel.CloudControlAPI whose first failFirst mapping lookups fail (a transient
+// read fault of the control plane / state store); everything else works.
+type faultCloud struct {
+	mu        sync.Mutex
+	failFirst int
+	lookups   int
+	failed    int
+}
+
+func (f *faultCloud) GetPortMapping(id string) (*models.PortMapping, error) {
+	f.mu.Lock()
+	defer f.mu.Unlock()
+	f.lookups++
+	if f.failed < f.failFirst {
+		f.failed++
+		return nil, fmt.Errorf("verif: transient read fault of the mapping store")
+	}
+	return &models.PortMapping{ID: id}, nil
+}
+func (f *faultCloud) UpdatePortMappingStats(id string, ts *stats.TrafficStats) error { return nil }
+func (f *faultCloud) GetClientPortMappings(clientID int64) ([]*models.PortMapping, error) {
+	return nil, nil
+}
+func (f *faultCloud) counts() (lookups, failed int) {
+	f.mu.Lock()
+	defer f.mu.Unlock()
+	return f.lookups, f.failed
+}
